@@ -104,13 +104,16 @@ fn order_l_component<P: SWCurveConfig>(rr: &Projective<P>, n: &BigUint, l: u64) 
         e /= &lb;
     }
     let mut t = ref_mul(rr, &e);
-    loop {
+    // at most v_l(n) steps when n annihilates the curve; bounded in any case (a wrong COFACTOR constant must surface as a
+    // violation of the relations, not as an endless loop of the generator)
+    for _ in 0..4096 {
         let next = ref_mul(&t, &lb);
         if next.is_zero() {
             return t;
         }
         t = next;
     }
+    t
 }
 
 /// Points whose cofactor component runs over *all* of E[l] (not just one random element of it): for a small prime
@@ -247,6 +250,16 @@ pub fn consts<P: SWCurveConfig>(c: &SwCtx<P>, _t: &mut Tape<'_>, o: &mut Obs) ->
     o.evals(5);
     ensure!(!(&c.h % &c.r).is_zero(), "consts.cofactor-multiple-of-r", "COFACTOR is a multiple of r");
     ensure!((&c.h * &hinv) % &c.r == BigUint::one(), "consts.cofactor_inv", "COFACTOR * COFACTOR_INV = 0x{:x} (mod r), expected 1", (&c.h * &hinv) % &c.r);
+    {
+        // COFACTOR * r annihilates the curve: two fixed points of the whole curve
+        let n = &c.h * &c.r;
+        for seed in [0x5eed_0011u64, 0x5eed_0012] {
+            let words = [seed, 0];
+            let mut tt = Tape::new(&words, false);
+            let rr: Projective<P> = from_x::<P>(&mut tt).into();
+            ensure!(ref_mul(&rr, &n).is_zero(), "consts.cofactor.kills-curve", "(COFACTOR * r) * R is not the identity for the curve point R = {}", rr.into_affine());
+        }
+    }
     ensure!(P::cofactor_is_one() == c.h.is_one(), "consts.cofactor_is_one", "cofactor_is_one() = {} for COFACTOR = 0x{:x}", P::cofactor_is_one(), c.h);
     let g = P::GENERATOR;
     ensure!(on_curve(&g) && !g.is_zero(), "consts.generator.on-curve", "generator is not a finite point of the curve");
